@@ -81,6 +81,36 @@ CHECKS["C20"] = dict(
          "no write. Equality eager == jit == value_and_grad primal is JAX's contract for pure functions and is not re-decided.",
     ref="DESIGN.md section 3 (C20)")
 
+CHECKS["C08"] = dict(
+    technique="abstract interpretation of the sampling code with a semantic model of jax.random.uniform (draw atoms, named count axes); grid-idiom rule",
+    text="Samplers: requested counts, coordinate i drawn in [min_i, max_i] of its own axis (time, interior d=1..3, parameter ranges); border "
+         "facets: pinned coordinate/side per facet in the order xmin,xmax,ymin,ymax and free coordinate in its own range, 1-D border [xmin,xmax] "
+         "served as (1,1,2); store shapes (nt, n x d, nb//(2d) x d x 2d); grid method: lower bound, upper bound and exact count (a float-step "
+         "arange is reported); batches are dynamic slices of the store with the declared batch shape. Float rounding at the closed ends is not "
+         "decided.",
+    ref="DESIGN.md section 3 (C08)")
+CHECKS["C09"] = dict(
+    technique="symbolic evaluation of one batch draw per generator kind to uninterpreted terms with integer comparator normal forms, compared with the specified step",
+    text="For every generator kind (times, interior, border, observation indices, parameter samples; with and without the RAR effective "
+         "length) one draw equals: reshuffle iff idx + b - n_rows >= 0, reshuffle = weighted row permutation without replacement with a split "
+         "key, index reset / advanced by b, batch sliced from the updated store at the updated index, every other field unchanged; plus the "
+         "initial index forces a first reshuffle without int32 overflow. The per-epoch served-once statement over all histories follows from "
+         "this step shape by the index argument in DESIGN.md section 6 and is not model-checked (family limit).",
+    ref="DESIGN.md section 3 (C09)")
+CHECKS["C14"] = dict(
+    technique="abstract interpretation with structured row axes (repeat/tile -> product axes) of make_cartesian_product and CubicMeshPDENonStatio.get_batch",
+    text="make_cartesian_product yields rows Prod(rows(b1), rows(b2)) with b1 major and columns [b1 | b2] (2-D and border 3-D tensors); "
+         "get_batch for cartesian / paired mode, dim 1 and 2, with and without border: interior rows Prod(time, space) or paired rows, each "
+         "border facet Prod(time, border) with the same time column for all facets, time in column 0, dim 1 forcing the product for the border.",
+    ref="DESIGN.md section 3 (C14)")
+CHECKS["C15"] = dict(
+    technique="symbolic evaluation of the loaders (constructors and batch methods) on tagged tables; kind-path evaluation of the table-shape branches",
+    text="Observation loader: constructor stores the three user tables unchanged (1-D inputs, with/without sharding device), one index vector "
+         "(a dynamic slice of the shuffled index store) gathers input, value and every observed parameter along axis 0; parameter loader: (n,1) "
+         "and (n,) tables accepted, other shapes rejected, table has priority over a range, per-key ranges; multi-network loader pairs tables by "
+         "key for any insertion order and returns one aligned batch per network with an empty entry for networks without observations.",
+    ref="DESIGN.md section 3 (C15)")
+
 UNDER_CONSTRUCTION = "check under construction in this build round; not yet claimed"
 NA = {}
 
